@@ -43,7 +43,7 @@ func checkList(ctx *Ctx, prop string, cs c01Case, cmds []vlib.Cmd, limit int, rs
 
 func engineSearchInv(ctx *Ctx) {
 	r := vlib.NewRand(ctx.Seed, ctx.Shard, "searchinv")
-	nDB := ctx.N(48, 480)
+	nDB := ctx.N(48, 1600)
 	nQ := ctx.Pick(60, 90)
 	nOpt := ctx.Pick(4, 6)
 	for d := 0; d < nDB; d++ {
@@ -295,7 +295,7 @@ func engineSearchInv(ctx *Ctx) {
 // force, on the lexical, fuzzy and recovery paths.
 func engineSearchInvCLI(ctx *Ctx) {
 	r := vlib.NewRand(ctx.Seed, ctx.Shard, "searchinv-cli")
-	nDB := ctx.N(16, 160)
+	nDB := ctx.N(16, 480)
 	for d := 0; d < nDB; d++ {
 		sp := vlib.DBSpec{N: []int{8, 30, 80, 200}[d%4], TieHeavy: d%2 == 0, Platforms: 0}
 		cmds := vlib.GenCommands(r, sp)
